@@ -59,8 +59,9 @@ Definition check (c : case) : N :=
       (* which level panicked is not observable: the level whose pre-fix model panics takes the blame *)
       match merge_level_panic_old is_key cats (c_path c) (c_keys c) with RPanic => 3 | _ => 5 end
   | Some (RErr EInvalid p) =>
-      if spec_C05 is_key cats (c_path c) (c_keys c) (RErr EInvalid p)
-      then (if res_eqb (RErr EInvalid p) model then 0 else 2) else 5
+      (* InvalidKey carries no key path: it may come from another level that has the same faulty base key (sub-keys are
+         merged first), so this level's own first error is not compared *)
+      if spec_C05 is_key cats (c_path c) (c_keys c) (RErr EInvalid p) then 0 else 5
   | Some impl =>
       if negb (spec_C05 is_key cats (c_path c) (c_keys c) impl) then 3
       else if negb (res_eqb impl model) then 2 else 0
